@@ -456,7 +456,8 @@ def BodyReg(obj:Logic):
         close = "end\n";
         
     if not(obj.e is None):
-        str += "if (e == 1)\n"
+        # any non-zero enable loads the register (as in Reg.clock)
+        str += "if (e != 0)\n"
         str += "begin\n"
         close = "end\n" + close
         
